@@ -108,6 +108,45 @@ class Taint:
         self.slices.append(n)
 
 
+def _candidate_provenance(pl, name, depth=0):
+  """'all-spanning': every lambda of the searched statements whose line span
+  contains the definition line, nothing else filtered; 'spanning+signature':
+  that list narrowed by _node_matches_argspec; None: anything else."""
+  from sa import collect
+  ys, problems = collect.yields(pl.node)
+  mine = [y for y in ys if y[2] == name]
+  if len(mine) != 1:
+    return None
+  levels, elt, _ = mine[0]
+  if not levels:
+    return None
+  inner = levels[-1]
+  conds = [(pol, core.norm(t)) for pol, t in inner['conds']]
+
+  def is_span(t):
+    try:
+      e = ast.parse(t, mode='eval').body
+    except SyntaxError:
+      return False
+    return isinstance(e, ast.Compare) and len(e.ops) == 2 and all(
+        isinstance(o, ast.LtE) for o in e.ops) and core.norm(e.comparators[0]) in (
+            'def_line', '%s.__code__.co_firstlineno' % pl.params()[0])
+  src = core.norm(inner['iter'])
+  if len(conds) == 1 and conds[0][0] == 'T' and is_span(conds[0][1]):
+    # over every lambda found: the source list is filled by an unfiltered walk
+    srcs = [y for y in ys if y[2] == src]
+    if len(srcs) == 1 and all(
+        "isinstance(" in core.norm(t) and 'ast.Lambda' in core.norm(t)
+        for pol, t in srcs[0][0][-1]['conds']) and len(srcs[0][0][-1]['conds']) == 1:
+      return 'all-spanning'
+    return None
+  if len(conds) == 1 and conds[0][0] == 'T' and conds[0][1].startswith(
+      '_node_matches_argspec(') and depth < 2:
+    if _candidate_provenance(pl, src, depth + 1) == 'all-spanning':
+      return 'spanning+signature'
+  return None
+
+
 def check(model, rep, tier):
   rep.not_decided = ('structural equality of the recovered tree for every '
                      'layout; behaviour of tokenize / inspect (trusted)')
@@ -270,6 +309,11 @@ def check(model, rep, tier):
         unpack = subs.pop()
     ok = unpack is not None and unpack in lens and isinstance(v, ast.Call) and \
         core.dotted(v.func) == '_without_context'
+    # ... and that list is the set of *all* lambdas whose span contains the
+    # definition line, or that set narrowed by the signature test
+    prov = _candidate_provenance(pl, unpack) if unpack else None
+    if ok and prov not in ('all-spanning', 'spanning+signature'):
+      ok = False
     rep.check(ok, 'SRC-LAMBDA', '%s:return(%s)' % (pl.site, unpack or core.norm(v)[:40]),
               'a lambda node is returned on a path where it is not established '
               'that exactly one candidate exists: a different lambda could be '
